@@ -1,12 +1,27 @@
 import IcyVerif.Model.Comp
+import IcyVerif.Model.CompHalf
+import IcyVerif.Model.CompLayer
 import IcyVerif.Drv.Util
 /-! Line protocol of the compositing model (C13).
 
-`comp get <isTerm> <x0> <y0> <x1> <y1> <nhb> {page ch upperIsFg lowerIsFg}* <nlayers> {layer}*`
+`comp get <isTerm> <x0> <y0> <x1> <y1> <nfonts> {bufferSlot ansiSlot}* <nlayers> {layer}*`
   layer = `vis alpha mode offx offy w h dfltPage nrows {len {cell}*}*`, layers bottom first (Rust order)
   cell  = `-1` (AttributedChar::invisible()) | `ch fg bg flags page`
 answers the cells of `getCharC` at every position of the rectangle, row by row, as `ch,fg,bg,flags,page`
-(or `panic`), separated by blanks.  The half-block classifier is the table sampled from the implementation. -/
+(or `panic`), separated by blanks.  The half-block classifier is the model of `HalfBlock::from` over the regenerated
+bitmaps of the built-in fonts in the buffer's font table (`Model/CompHalf.lean`).
+
+`comp ops <isTerm> <x0> <y0> <x1> <y1> <nfonts> {…}* <nlayers> {layer}* <nops> {layerIndex code a b}*`
+  the layers start fresh (no preview, unlocked); code 0 = set_offset((a, b)), 1 = set_preview_offset(Some((a, b))),
+  2 = set_preview_offset(None), 3 = properties.is_position_locked = (a != 0), 4 = properties.offset = (a, b);
+answers the cells as above, then ` |` and per layer ` gx,gy;bx,by;(none|px,py)` = get_offset, get_base_offset,
+get_preview_offset.
+
+`comp solid <nfonts> {…}* <n> {t u}*` (full 5-integer cells) answers `make_solid_color(t, u)` per pair.
+`comp pred <n> {cell}*` answers `is_visible is_transparent` (0/1) per cell.
+`comp lget <layer> <x0> <y0> <x1> <y1>` answers `Layer::get_char` at every LAYER position of the rectangle.
+
+(`hbEntry` / `hbOf`: the classifier as a table sampled from the implementation — used by C12's driver.) -/
 namespace IcyVerif.Drv.Comp
 open IcyVerif.Comp IcyVerif.Drv
 
@@ -82,31 +97,122 @@ def showRes : Option Cell → String
 
 def range (a b : Int) : List Int := (List.range (b - a + 1).toNat).map fun (i : Nat) => a + (i : Int)
 
+def slotPair : P (Nat × Nat)
+  | a :: b :: xs => if a < 0 || b < 0 then none else some ((a.toNat, b.toNat), xs)
+  | _ => none
+
+/-- `<n> {item}*` -/
+def countedOf {α : Type} (p : P α) : P (List α) := fun xs =>
+  match nat xs with
+  | none => none
+  | some (n, xs) => many p n xs
+
+/-- the font table of the buffer: every ANSI slot named must be one the translator regenerated -/
+def fontsOk (slots : List (Nat × Nat)) : Bool := slots.all fun s => (ansiFont s.2).isSome
+
 def get (xs : List Int) : Option String :=
   match xs with
-  | t :: x0 :: y0 :: x1 :: y1 :: nhb :: xs =>
-    if nhb < 0 then none else
-    match many hbEntry nhb.toNat xs with
+  | t :: x0 :: y0 :: x1 :: y1 :: xs =>
+    match countedOf slotPair xs with
     | none => none
-    | some (tbl, xs) =>
-      match nat xs with
+    | some (slots, xs) =>
+      if !fontsOk slots then none else
+      match countedOf layer xs with
+      | some (stack, []) =>
+        let hb := halfBlockOf (fontTable slots)
+        let cells := (range y0 y1).flatMap fun y => (range x0 x1).map fun x =>
+          showRes (getCharC hb (t != 0) stack x y)
+        some (" ".intercalate cells)
+      | _ => none
+  | _ => none
+
+def lop : P (Nat × LOp)
+  | i :: c :: a :: b :: xs =>
+    if i < 0 then none else
+    match c with
+    | 0 => some ((i.toNat, .setOffset (a, b)), xs)
+    | 1 => some ((i.toNat, .setPreview (some (a, b))), xs)
+    | 2 => some ((i.toNat, .setPreview none), xs)
+    | 3 => some ((i.toNat, .setLocked (a != 0)), xs)
+    | 4 => some ((i.toNat, .assignOffset (a, b)), xs)
+    | _ => none
+  | _ => none
+
+def showPos (p : Int × Int) : String := toString p.1 ++ "," ++ toString p.2
+
+def showState (l : LayerS) : String :=
+  showPos l.getOffset ++ ";" ++ showPos l.getBaseOffset ++ ";" ++
+    (match l.getPreviewOffset with | some p => showPos p | none => "none")
+
+def ops (xs : List Int) : Option String :=
+  match xs with
+  | t :: x0 :: y0 :: x1 :: y1 :: xs =>
+    match countedOf slotPair xs with
+    | none => none
+    | some (slots, xs) =>
+      if !fontsOk slots then none else
+      match countedOf layer xs with
       | none => none
-      | some (nl, xs) =>
-        match many layer nl xs with
-        | some (stack, []) =>
-          let hb := hbOf tbl
+      | some (stack, xs) =>
+        match countedOf lop xs with
+        | some (os, []) =>
+          if os.any (fun o => o.1 ≥ stack.length) then none else
+          let hb := halfBlockOf (fontTable slots)
+          let S := runStack (stack.map LayerS.fresh) os
           let cells := (range y0 y1).flatMap fun y => (range x0 x1).map fun x =>
-            showRes (getCharC hb (t != 0) stack x y)
-          some (" ".intercalate cells)
+            showRes (getCharSC hb (t != 0) S x y)
+          some (" ".intercalate cells ++ " |" ++ String.join (S.map fun l => " " ++ showState l))
         | _ => none
+  | _ => none
+
+def fullCell : P Cell
+  | ch :: fg :: bg :: fl :: pg :: rest =>
+    if ch < 0 || fg < 0 || bg < 0 || fl < 0 || pg < 0 then none
+    else some (⟨ch.toNat, ⟨fg.toNat, bg.toNat, fl.toNat, pg.toNat⟩⟩, rest)
+  | _ => none
+
+def cellPair : P (Cell × Cell) := fun xs =>
+  match fullCell xs with
+  | none => none
+  | some (a, xs) => match fullCell xs with
+    | none => none
+    | some (b, xs) => some ((a, b), xs)
+
+def solid (xs : List Int) : Option String :=
+  match countedOf slotPair xs with
+  | none => none
+  | some (slots, xs) =>
+    if !fontsOk slots then none else
+    match countedOf cellPair xs with
+    | some (ps, []) => some (" ".intercalate (ps.map fun p => showCell (makeSolidF (fontTable slots) p.1 p.2)))
+    | _ => none
+
+def bit (b : Bool) : String := if b then "1" else "0"
+
+def pred (xs : List Int) : Option String :=
+  match countedOf fullCell xs with
+  | some (cs, []) => some (" ".intercalate (cs.map fun c => bit c.isVisible ++ bit c.isTransparent))
+  | _ => none
+
+def lget (xs : List Int) : Option String :=
+  match layer xs with
+  | some (l, [x0, y0, x1, y1]) =>
+    some (" ".intercalate ((range y0 y1).flatMap fun y => (range x0 x1).map fun x => showCell (l.getChar x y)))
   | _ => none
 
 def ints (ss : List String) : Option (List Int) := ss.mapM String.toInt?
 
+def dispatch (f : List Int → Option String) (rest : List String) : String :=
+  match ints rest with
+  | some xs => (f xs).getD "bad-op"
+  | none => "bad-op"
+
 def handle : List String → String
-  | "get" :: rest => match ints rest with
-    | some xs => (get xs).getD "bad-op"
-    | none => "bad-op"
+  | "get" :: rest => dispatch get rest
+  | "ops" :: rest => dispatch ops rest
+  | "solid" :: rest => dispatch solid rest
+  | "pred" :: rest => dispatch pred rest
+  | "lget" :: rest => dispatch lget rest
   | _ => "bad-op"
 
 end IcyVerif.Drv.Comp
